@@ -122,7 +122,20 @@ OBJECTS = [
     ('abstract-class', lambda: __import__('collections.abc').abc.Mapping),
     ('typing-generic-alias', lambda: __import__('typing').List[int]),
     ('exception-class', lambda: ValueError), ('builtin-class-method', lambda: dict.fromkeys),
+    # objects whose __getattr__ answers every name (they seem to carry every protocol attribute)
+    ('mock-Mock', lambda: __import__('unittest.mock').mock.Mock()),
+    ('mock-MagicMock', lambda: __import__('unittest.mock').mock.MagicMock()),
+    ('mock-NonCallableMock', lambda: __import__('unittest.mock').mock.NonCallableMock()),
+    ('mock-call', lambda: __import__('unittest.mock').mock.call),
+    ('catch-all-getattr-callable', lambda: _catch_all(True)), ('catch-all-getattr-noncallable', lambda: _catch_all(False)),
 ]
+
+
+def _catch_all(callable_):
+    ns = {}
+    exec('class Any(object):\n    def __getattr__(self, name):\n        if name.startswith("__"):\n            raise AttributeError(name)\n'
+         '        return Any()\n' + ('    def __call__(self, *args, **kwargs):\n        return Any()\n' if callable_ else ''), ns)
+    return ns['Any']()
 
 
 def _callee_fn():
@@ -430,7 +443,7 @@ def plan(tier):
     if tier == 'quick':
         return [
             dict(name='constructs-pairs', fn='h_constructs', depth=9, budget_s=300, cfg=dict(pairs=True),
-                 bounds='every single and every ordered pair of 55 statement constructs x 7 function kinds x with/without forwarding call x with/without own parameters; 44 special objects',
+                 bounds='every single and every ordered pair of 55 statement constructs x 7 function kinds x with/without forwarding call x with/without own parameters; 50 special objects (mock-like catch-all __getattr__ objects included)',
                  min_nontrivial=300, must_reach=['returns-whenever-inspect-does', 'raises-the-same-exception-type',
                                                  'only-narrows-own-signature']),
             dict(name='corpus-quick', fn='h_corpus', depth=8, budget_s=300, cfg=dict(thorough=False),
@@ -442,7 +455,7 @@ def plan(tier):
         ]
     return [
         dict(name='constructs-pairs', fn='h_constructs', depth=10, budget_s=2400, cfg=dict(pairs=True),
-             bounds='every pair of the 55 statement constructs x 7 function kinds x site x parameters; 44 special objects', min_nontrivial=300),
+             bounds='every pair of the 55 statement constructs x 7 function kinds x site x parameters; 50 special objects (mock-like catch-all __getattr__ objects included)', min_nontrivial=300),
         dict(name='corpus-thorough', fn='h_corpus', depth=10, budget_s=3000, cfg=dict(thorough=True),
              bounds='every callable reachable from ~120 importable modules (stdlib, packages installed in /venv, sigtools)', min_nontrivial=1000),
         dict(name='sphinx-hook', fn='h_sphinx', depth=4, budget_s=120, cfg=dict(), bounds='27 documentable names of the fixture module',
